@@ -1396,7 +1396,7 @@ class TrigInfo:
             # Store HASS Context for this Task
             Function.store_hass_context(hass_context)
 
-            if task_unique and task_unique_func:
+            if task_unique is not None and task_unique_func:
                 # kill_me is honoured again here: another run may have claimed the name since the check above
                 await task_unique_func(task_unique, **(self.task_unique_kwargs or {}))
             try:
